@@ -361,7 +361,7 @@ func main() {
 		return
 	}
 	rep = report.New("C16", tier, "model_checking")
-	rep.Rule = "E1: for each of Point, MultiPoint, LineString, MultiLineString, Polygon, *Bounds: every shape with 1..3 parts/rings x 1..3 vertices (rings closed and unclosed, both windings by rotation of the pattern list) with coordinates from 19 finite float64 patterns, as single records, ordered pairs and triples of a reduced shape list, and the empty file; attributes int {0,-1,+-999999999,9999999999,42}, string {empty, 1 byte, 50 bytes, UTF-8, inner spaces, leading/trailing space}, float {0,-1.5,1/3,1e10,123456789.1234567891,-1e-10}; multi-line strings also with empty parts after the first; the struct API (tags/names in different letter case between writer and reader; for points also a record type whose last field is the string), the field API, and the field API with geometry-only reads (no field names) on every other record. the struct and field APIs again with the written geometries cut from flat vertex buffers (not written to). Oracle: same number and order of records, every returned geometry and attribute map still intact after the last row, bit-identical coordinates part by part (unclosed rings closed, boxes as 5-vertex rectangles), ints equal, strings equal, floats within 1e-10. Non-trivial = files with >= 2 records or >= 2 parts."
+	rep.Rule = "E1: for each of Point, MultiPoint, LineString, MultiLineString, Polygon, *Bounds: every shape with 1..3 parts/rings x 1..3 vertices (rings closed and unclosed, both windings by rotation of the pattern list, every fourth rotation with a repeated consecutive vertex in every part) with coordinates from 19 finite float64 patterns, as single records, ordered pairs and triples of a reduced shape list, and the empty file; attributes int {0,-1,+-999999999,9999999999,42}, string {empty, 1 byte, 50 bytes, UTF-8, inner spaces, leading/trailing space}, float {0,-1.5,1/3,1e10,123456789.1234567891,-1e-10}; multi-line strings also with empty parts after the first; the struct API (tags/names in different letter case between writer and reader; for points also a record type whose last field is the string), the field API, and the field API with geometry-only reads (no field names) on every other record. the struct and field APIs again with the written geometries cut from flat vertex buffers (not written to). Oracle: same number and order of records, every returned geometry and attribute map still intact after the last row, bit-identical coordinates part by part (unclosed rings closed, boxes as 5-vertex rectangles), ints equal, strings equal, floats within 1e-10. Non-trivial = files with >= 2 records or >= 2 parts."
 	tmpRoot = "/dev/shm"
 	if st, err := os.Stat(tmpRoot); err != nil || !st.IsDir() {
 		tmpRoot = os.TempDir()
@@ -370,7 +370,32 @@ func main() {
 	mk := func(s geomgen.Skel, rot int) geom.Geom {
 		i := 0
 		val := func() float64 { v := pat[(i+rot)%len(pat)]; i++; return v }
-		return geomgen.Build(s, func() geom.Point { x := val(); y := val(); return geom.Point{X: x, Y: y} })
+		g := geomgen.Build(s, func() geom.Point { x := val(); y := val(); return geom.Point{X: x, Y: y} })
+		if rot%4 == 3 {
+			// every fourth rotation: the second vertex of every part of >= 3
+			// vertices repeats the first (consecutive duplicates are legal and
+			// must come back)
+			dup := func(p []geom.Point) {
+				if len(p) >= 3 {
+					p[1] = p[0]
+				}
+			}
+			switch t := g.(type) {
+			case geom.MultiPoint:
+				dup(t)
+			case geom.LineString:
+				dup(t)
+			case geom.MultiLineString:
+				for _, l := range t {
+					dup(l)
+				}
+			case geom.Polygon:
+				for _, r := range t {
+					dup(r)
+				}
+			}
+		}
+		return g
 	}
 	lens := []int{1, 2, 3, 4}
 	if tier == "thorough" {
